@@ -227,6 +227,8 @@ class Machine:
         arr = vals_to_array(reg["val"], reg["m"]["n"], reg["nv"], dt)
         vdims = list(reg["vdims"]) if reg["vdims"] else None
         mapping = dict(zip(reg["vdims"], reg["map"])) if reg["map"] else {}
+        if len(mapping) > 1 and sum(reg["m"]["n"]) % 2 == 0:
+            mapping = dict(reversed(list(mapping.items())))   # key order of a mapping must not matter
         dtype = {"int": np.int64, "complex": np.complex128}.get(dt)
         return self.df.Field(mesh, nvdim=reg["nv"], value=arr, valid=mask_to_array(reg["valid"], reg["m"]["n"]),
                              vdims=vdims, vdim_mapping=mapping, dtype=dtype)
